@@ -23,8 +23,10 @@ import (
 	"encoding/json"
 	"errors"
 	"fmt"
+	"io"
 	"math/big"
 	"math/rand"
+	"net/http"
 	"os"
 	"path"
 	"sort"
@@ -46,7 +48,6 @@ import (
 	"github.com/nuts-foundation/nuts-node/crypto/storage/spi"
 	"github.com/nuts-foundation/nuts-node/jsonld"
 	"github.com/nuts-foundation/nuts-node/storage"
-	"github.com/nuts-foundation/nuts-node/storage/orm"
 	testio "github.com/nuts-foundation/nuts-node/test/io"
 	"github.com/nuts-foundation/nuts-node/vcr/credential"
 	"github.com/nuts-foundation/nuts-node/vcr/holder"
@@ -59,6 +60,7 @@ import (
 	"github.com/nuts-foundation/nuts-node/vdr/resolver"
 	"github.com/piprate/json-gold/ld"
 	"github.com/sirupsen/logrus"
+	"gorm.io/gorm"
 )
 
 const (
@@ -177,7 +179,61 @@ func (p *c01Publisher) PublishRevocation(_ context.Context, r credential.Revocat
 	return nil
 }
 
+// c01HTTP is the verifier node's HTTP client: it fetches status list credentials from the issuer node (issuer.StatusList),
+// optionally tampering with what is served.
+type c01HTTP struct {
+	n      *c01Nodes
+	mode   string            // "", "fold" (inject a case-folding variant of encodedList), "down" (HTTP 500)
+	zero   map[string]string // url -> encodedList captured before any revocation (mode fold)
+	served int
+}
+
+func (h *c01HTTP) fetch(url string) ([]byte, error) {
+	parts := strings.Split(strings.TrimPrefix(url, "https://issuer.example.com/statuslist/"), "/")
+	if len(parts) != 2 {
+		return nil, errors.New("not a status list url")
+	}
+	page, _ := strconv.Atoi(parts[1])
+	id, err := did.ParseDID(parts[0])
+	if err != nil {
+		return nil, err
+	}
+	saved := h.n.w.asOf
+	h.n.w.asOf = time.Now().UnixMilli()
+	cred, err := h.n.iss.StatusList(h.n.w.ctx, *id, page)
+	h.n.w.asOf = saved
+	if err != nil {
+		return nil, err
+	}
+	return json.Marshal(cred)
+}
+
+func (h *c01HTTP) Do(req *http.Request) (*http.Response, error) {
+	h.served++
+	resp := func(code int, body []byte) (*http.Response, error) {
+		return &http.Response{StatusCode: code, Body: io.NopCloser(bytes.NewReader(body)), Header: http.Header{}}, nil
+	}
+	if h.mode == "down" {
+		return resp(500, []byte("down"))
+	}
+	body, err := h.fetch(req.URL.String())
+	if err != nil {
+		return resp(404, []byte(err.Error()))
+	}
+	if h.mode == "fold" {
+		var m map[string]any
+		_ = json.Unmarshal(body, &m)
+		if cs, ok := m["credentialSubject"].(map[string]any); ok {
+			cs["encodedLiſt"] = h.zero[req.URL.String()]
+		}
+		body, _ = json.Marshal(m)
+	}
+	return resp(200, body)
+}
+
 type c01Nodes struct {
+	vdb    *gorm.DB
+	http   *c01HTTP
 	w      *c01World
 	ver    verifier.Verifier
 	vTrust *trust.Config
@@ -362,7 +418,7 @@ func (w *c01World) ldMeasure(document any, view map[string]any, tb *c01Tables) {
 			}
 		}
 	}
-	view["caseVariant"] = cv
+	view["caseVariant"] = cv || ambiguousNames(map[string]any(sd))
 	raw, has := sd["proof"]
 	ldp := proof.LDProof{}
 	if !has || raw == nil {
@@ -396,6 +452,36 @@ func (w *c01World) ldMeasure(document any, view map[string]any, tb *c01Tables) {
 		}
 	}
 	view["sigKeys"] = sigKeys
+}
+
+// ambiguousNames: some object (at any depth) has two member names that are equal under Unicode case folding
+func ambiguousNames(v any) bool {
+	switch x := v.(type) {
+	case map[string]any:
+		keys := make([]string, 0, len(x))
+		for k := range x {
+			keys = append(keys, k)
+		}
+		for i := range keys {
+			for j := i + 1; j < len(keys); j++ {
+				if strings.EqualFold(keys[i], keys[j]) {
+					return true
+				}
+			}
+		}
+		for _, c := range x {
+			if ambiguousNames(c) {
+				return true
+			}
+		}
+	case []any:
+		for _, c := range x {
+			if ambiguousNames(c) {
+				return true
+			}
+		}
+	}
+	return false
 }
 
 func jwtView(raw string, w *c01World, view map[string]any, tb *c01Tables) {
@@ -1109,6 +1195,10 @@ func TestVerifC01(t *testing.T) {
 	}
 	n := newC01Nodes(t)
 	n.generate(o, rnd, thorough)
+	statusScenario(t, o, rnd, "", true)
+	statusScenario(t, o, rnd, "fold-after-cache", false)
+	statusScenario(t, o, rnd, "down-after-cache", false)
+	statusScenario(t, o, rnd, "down-cold", false)
 	sb, _ := json.Marshal(o.stats)
 	os.WriteFile(path.Join(outDir, "stats.json"), sb, 0o644)
 }
@@ -1116,7 +1206,10 @@ func TestVerifC01(t *testing.T) {
 func newC01Nodes(t *testing.T) *c01Nodes {
 	ctx := audit.TestContext()
 	backend := nutsCrypto.NewMemoryStorage()
-	w := &c01World{t: t, ctx: ctx, backend: backend, ks: nutsCrypto.NewTestCryptoInstance(orm.NewTestDatabase(t), backend), keys: map[string]crypto.PublicKey{}, hist: map[string][]c01Version{}, docs: map[string]*did.Document{}}
+	// the key store shares the issuer node's SQL database (the status list issuer signs inside its own SQL transaction)
+	iEng := storage.NewTestStorageEngine(t)
+	idb := iEng.GetSQLDatabase()
+	w := &c01World{t: t, ctx: ctx, backend: backend, ks: nutsCrypto.NewTestCryptoInstance(idb, backend), keys: map[string]crypto.PublicKey{}, hist: map[string][]c01Version{}, docs: map[string]*did.Document{}}
 	w.ldm = jsonld.NewTestJSONLDManager(t)
 	w.loader = w.ldm.DocumentLoader()
 	T := func(s int64) int64 { return (c01T0 + s) * 1000 }
@@ -1148,10 +1241,9 @@ func newC01Nodes(t *testing.T) *c01Nodes {
 		t.Fatal(err)
 	}
 	vTrust := trust.NewConfig(path.Join(dir, "vtrust.yaml"))
-	ver := verifier.NewVerifier(vstore, w, kr, w.ldm, vTrust, revocation.NewStatusList2021(vEng.GetSQLDatabase(), nil, ""))
+	httpStub := &c01HTTP{zero: map[string]string{}}
+	ver := verifier.NewVerifier(vstore, w, kr, w.ldm, vTrust, revocation.NewStatusList2021(vEng.GetSQLDatabase(), httpStub, ""))
 	// issuer node
-	iEng := storage.NewTestStorageEngine(t)
-	idb := iEng.GetSQLDatabase()
 	storage.AddDIDtoSQLDB(t, idb, did.MustParseDID(didI), did.MustParseDID(didJ), did.MustParseDID(didH), did.MustParseDID(didD))
 	istore, err := issuer.NewStore(idb, path.Join(dir, "is.db"), storage.CreateTestBBoltStore(t, path.Join(dir, "isb.db")))
 	if err != nil {
@@ -1166,7 +1258,9 @@ func newC01Nodes(t *testing.T) *c01Nodes {
 	}
 	iver := verifier.NewVerifier(ivstore, w, kr, w.ldm, iTrust, revocation.NewStatusList2021(idb, nil, ""))
 	wallet := holder.NewSQLWallet(kr, w.ks, iver, w.ldm, iEng)
-	return &c01Nodes{w: w, ver: ver, vTrust: vTrust, iss: iss, pub: pub, wallet: wallet}
+	n := &c01Nodes{w: w, ver: ver, vTrust: vTrust, iss: iss, pub: pub, wallet: wallet, http: httpStub, vdb: vEng.GetSQLDatabase()}
+	httpStub.n = n
+	return n
 }
 
 func (n *c01Nodes) emitWorld(o *c01Out) {
@@ -1207,10 +1301,14 @@ type c01Base struct {
 }
 
 func (n *c01Nodes) issue(tmpl vc.VerifiableCredential, format string, at int64) string {
+	return n.issueOpt(tmpl, format, at, false)
+}
+
+func (n *c01Nodes) issueOpt(tmpl vc.VerifiableCredential, format string, at int64, withStatus bool) string {
 	n.w.asOf = at * 1000
 	issuer.TimeFunc = func() time.Time { return time.Unix(at, 0).UTC() }
 	defer func() { issuer.TimeFunc = time.Now }()
-	c, err := n.iss.Issue(n.w.ctx, tmpl, issuer.CredentialOptions{Format: format})
+	c, err := n.iss.Issue(n.w.ctx, tmpl, issuer.CredentialOptions{Format: format, WithStatusListRevocation: withStatus})
 	if err != nil {
 		n.w.t.Fatalf("issue %s: %v", format, err)
 	}
@@ -1332,6 +1430,98 @@ func (n *c01Nodes) generate(o *c01Out, rnd *rand.Rand, thorough bool) {
 	}
 	// 3. time / key-history / trust / revocation scan on the unmodified documents
 	n.scan(o, rnd, bases, thorough)
+}
+
+// statusScenario: credentials with a StatusList2021 entry issued by the did:web issuer; the verifier node downloads the
+// status list credential from the issuer node (real signature check on it).  One credential is revoked on the issuer node
+// BEFORE the verifier first fetches the list.  mode: "" honest (+ systematic mutation of a credential with status entry);
+// "fold-after-cache": after the verifier cached the honest list and an hour passed, the served list carries an extra member
+// "encodedLiſt" (all zeros) that encoding/json folds onto encodedList; "down-after-cache": idem, HTTP 500;
+// "down-cold": the list can never be fetched (soft fail: the node reports valid).
+func statusScenario(t *testing.T, o *c01Out, rnd *rand.Rand, mode string, mutate bool) {
+	n := newC01Nodes(t)
+	o.emit(map[string]any{"op": "reset"}, "reset")
+	n.emitWorld(o)
+	u := ssi.MustParseURI
+	tmpl := vc.VerifiableCredential{Context: []ssi.URI{u(ctxVC), u(ctxEx)}, Type: []ssi.URI{u("VerifiableCredential"), u("HumanCredential")}, Issuer: u(didJ),
+		CredentialSubject: []any{map[string]any{"id": didH, "human": map[string]any{"eyeColour": "green", "hairColour": "dark"}}}}
+	issuedAt := c01T0 + 100
+	okAt := issuedAt + 30
+	n.setTrust(o, "HumanCredential", didJ, true)
+	type sc struct {
+		label, text string
+		revoke      bool
+	}
+	var list []sc
+	for _, f := range []string{vc.JSONLDCredentialProofFormat, vc.JWTCredentialProofFormat} {
+		list = append(list, sc{"status-keep:" + f + ":" + mode, n.issueOpt(tmpl, f, issuedAt, true), false})
+		list = append(list, sc{"status-revoke:" + f + ":" + mode, n.issueOpt(tmpl, f, issuedAt, true), true})
+	}
+	// capture the all-zero list, then revoke on the issuer node
+	truth := map[string][]int{}
+	for _, c := range list {
+		cred, _ := vc.ParseVerifiableCredential(c.text)
+		sts, _ := cred.CredentialStatuses()
+		for _, st := range sts {
+			var en revocation.StatusList2021Entry
+			_ = json.Unmarshal(st.Raw(), &en)
+			if _, ok := n.http.zero[en.StatusListCredential]; !ok {
+				if body, err := n.http.fetch(en.StatusListCredential); err == nil {
+					var m map[string]any
+					_ = json.Unmarshal(body, &m)
+					if cs, ok := m["credentialSubject"].(map[string]any); ok {
+						n.http.zero[en.StatusListCredential], _ = cs["encodedList"].(string)
+					}
+				}
+				truth[en.StatusListCredential] = []int{}
+			}
+			if c.revoke {
+				saved := n.w.asOf
+				n.w.asOf = time.Now().UnixMilli()
+				_, err := n.iss.Revoke(n.w.ctx, *cred.ID)
+				n.w.asOf = saved
+				if err != nil {
+					t.Fatalf("status list revoke: %v", err)
+				}
+				idx, _ := strconv.Atoi(en.StatusListIndex)
+				truth[en.StatusListCredential] = append(truth[en.StatusListCredential], idx)
+			}
+		}
+	}
+	cold := mode == "down-cold"
+	if cold {
+		n.http.mode = "down"
+	}
+	for url, revoked := range truth {
+		o.emit(map[string]any{"op": "statuslist", "url": url, "purpose": "revocation", "revoked": revoked, "available": !cold}, "statuslist")
+	}
+	verifyAll := func(tag string) {
+		for _, c := range list {
+			n.run(o, c01Call{kind: "vc", text: c.text, at: &okAt, allowUntrusted: false, checkSig: true, label: c.label + tag, base: c.label,
+				mut: map[bool]string{true: "status-revoked", false: tag}[c.revoke], path: tag})
+		}
+	}
+	verifyAll("")
+	if mutate {
+		for _, c := range list {
+			if !c.revoke {
+				n.mutate(o, rnd, c01Base{label: c.label, kind: "vc", text: c.text, issued: issuedAt}, okAt, false)
+			}
+		}
+	}
+	if strings.HasSuffix(mode, "-after-cache") {
+		// an hour passes (the verifier refreshes status lists older than 15 minutes), then only a tampered list / nothing is served:
+		// the verifier keeps using the list it verified before, so what was revoked stays revoked
+		if err := n.vdb.Exec("UPDATE status_list_credential SET created_at = created_at - 3600").Error; err != nil {
+			t.Fatal(err)
+		}
+		before := n.http.served
+		n.http.mode = strings.TrimSuffix(mode, "-after-cache")
+		verifyAll("@later")
+		if n.http.served == before {
+			t.Fatal("status scenario: the verifier did not try to refresh the aged status list")
+		}
+	}
 }
 
 var c01ExtraAddsVC = map[string][]any{
